@@ -5,6 +5,7 @@ import os
 import re
 import subprocess
 import sys
+import time
 from concurrent.futures import ThreadPoolExecutor
 
 if __name__ == "__main__":      # run as the parallel driver wrapper (see pardriver_main)
@@ -69,6 +70,9 @@ ASSUMPTIONS = ["pthread_spin_lock (_con_spl) gives mutual exclusion: a critical 
                "into the FastFlow queue, which asserts against it (finding reported, outside this property)",
                "TSan build: pthread_create/pthread_join are interposed in the harness so that fix8's joins on never-started or "
                "already-joined threads (which TSan treats as fatal) return ESRCH (finding reported)",
+               "the batch buffer is a byte list in the model (no capacity / reallocation): correct use of the std::string when an "
+               "append reallocates is covered by the tie only, with batches aimed at the capacity read from "
+               "`_batchmsgs_buffer.reserve(...)` in runtime/session.cpp (82,240 bytes) and at twice that",
                "virtual clock frozen during a concurrent phase (SendingTime constant); plain messages (no custom seqnum / "
                "no_increment / SequenceReset / preset MsgSeqNum) with SOH- and NUL-free values"]
 RULE = ("one real session per case (initiator / acceptor, memory / file / no persister, start numbers 1, 2, 9.., 99.., 999..), "
@@ -76,7 +80,10 @@ RULE = ("one real session per case (initiator / acceptor, memory / file / no per
         "each drawn from ALL public send entry points of Session, mixed across and within threads -- send(Message*) with "
         "destroy true / false, the by-reference send(Message&), send_batch with destroy true / false -- plus contention "
         "cases (4-8 threads x 500-1000 sends without yields, by reference only / against the other entry points) (batches of 1-4, application messages of four types and administrative messages, every "
-        "body carries thread id and index), at most 4000 messages; small cases aimed at the boundaries (empty program, one "
+        "body carries thread id and index), at most 4000 messages; batches of 79-170 messages (up to 8 KB each) whose total size is just below / exactly at / just above the capacity of "
+        "Session::_batchmsgs_buffer (parsed from the tree under test) with the crossing on the last or an inner message, a second "
+        "crossing at twice the capacity, sequentially (BATCH) and inside CONC in both process models, with foreign singles; long "
+        "single messages; small cases aimed at the boundaries (empty program, one "
         "thread, batch of one, two CONC phases, a foreign single inside a batch); malformed operations. non-trivial = at "
         "least 2 threads with messages and at least 20 messages on the wire; distinct = distinct case lines")
 
@@ -217,6 +224,7 @@ def run_impl(built, cases, tier):
     """ASan cases: sharded over a few harness processes; TSan cases (START ... san=tsan): one process each, stderr
     parsed into RACE tokens.  The harness prints '<canonical> ## <raw>': the canonical part is the result the framework
     compares, the raw part (schedule dependent) goes to the model driver through a side file."""
+    t_start = time.time()
     lines = [c.line for c in cases]
     res = [None] * len(lines)
     t_idx = [i for i, l in enumerate(lines) if " san=tsan" in l.split("|")[0]]
@@ -225,13 +233,15 @@ def run_impl(built, cases, tier):
     # interleave so that every shard gets big and small cases
     shards = [a_idx[k::n] for k in range(n)]
     with ThreadPoolExecutor(max_workers=n + 2) as ex:
-        futs = [ex.submit(core.run_lines, built["impl"], [lines[i] for i in sh], 1500, 60, built.get("env")) for sh in shards]
+        futs = [ex.submit(core.run_lines, built["impl"], [lines[i] for i in sh], 300, 90, built.get("env")) for sh in shards]
         tfuts = [(i, ex.submit(_run_tsan, built, lines[i])) for i in t_idx]
         for sh, f in zip(shards, futs):
             for i, r in zip(sh, f.result()):
                 res[i] = r
         for i, f in tfuts:
             res[i] = f.result()
+    print("[c25] harness phase %.1fs: %d ASan cases in %d shards, %d TSan cases" % (time.time() - t_start, len(a_idx), n, len(t_idx)),
+          file=sys.stderr, flush=True)
     canon, raw = [], []
     for r in res:
         c, sep, w = r.partition(SEP)
@@ -336,6 +346,138 @@ def big_case(rng, pm, san=None, lo=50, hi=500, nthreads=None, tick=False):
     return "|".join(ops)
 
 
+# ------------------------------------------------------------------------------------------------- batch buffer boundary
+def batch_capacity():
+    """What Session's constructors reserve for _batchmsgs_buffer, read from the tree under test:
+    `_batchmsgs_buffer.reserve(<expr>)` in runtime/session.cpp, with the macros / constants of the expression taken from
+    f8config.h and field.hpp.  Appends beyond it make std::string reallocate (libstdc++: to max(2 * capacity, needed))."""
+    src = open(os.path.join(B.REPO, "runtime/session.cpp")).read()
+    m = re.search(r"_batchmsgs_buffer\.reserve\(([^;]*)\);", src)
+    if not m:
+        return None
+    expr = m.group(1)
+    texts = []
+    for d in B.include_dir():
+        for f in ("fix8/f8config.h", "fix8/field.hpp", "fix8/f8types.hpp", "fix8/message.hpp"):
+            try:
+                texts.append(open(os.path.join(d, f)).read())
+            except OSError:
+                pass
+    hdr = "\n".join(texts)
+    for name in set(re.findall(r"[A-Za-z_][A-Za-z_0-9]*", expr)):
+        v = re.search(r"#\s*define\s+%s\s+(\d+)" % name, hdr) or re.search(r"\b%s\s*[({=]\s*(\d+)" % name, hdr)
+        if not v:
+            return None
+        expr = re.sub(r"\b%s\b" % name, v.group(1), expr)
+    if not re.fullmatch(r"[\d\s+*()\-]+", expr):
+        return None
+    return int(eval(expr))
+
+
+def wire_len(body_fields, seq, sender="CLI", target="SRV", mtype="D"):
+    body = "35=%s\x0149=%s\x0156=%s\x0134=%d\x0152=%s\x01" % (mtype, sender, target, seq, S.ts(S.T0))
+    body += "".join("%s=%s\x01" % (k, v) for k, v in body_fields)
+    return len("8=FIX.4.2\x019=%d\x01" % len(body)) + len(body) + 7
+
+
+def sized_order(ident, seq, size):
+    """A NewOrderSingle whose encoding as message number `seq` of an initiator CLI->SRV is exactly `size` bytes
+    (the Text field is the padding; size must stay below FIX8_MAX_MSG_LENGTH)."""
+    base = [(11, ident), (21, "1"), (55, "IBM"), (54, "1"), (60, S.ts(S.T0)), (40, "1")]
+    pad = max(1, size - wire_len(base + [(58, "")], seq))
+    for _ in range(6):
+        n = wire_len(base + [(58, "x" * pad)], seq)
+        if n == size:
+            break
+        pad = max(1, pad + size - n)
+    return S.spec("D", base + [(58, "x" * pad)]), wire_len(base + [(58, "x" * pad)], seq)
+
+
+def sized_batch(tid, first_seq, sizes, idx0=0):
+    """msgspecs of a batch whose encodings have exactly the given sizes; returns (specs, achieved sizes)"""
+    specs, got = [], []
+    for k, sz in enumerate(sizes):
+        sp, n = sized_order("t%d.%d" % (tid, idx0 + k), first_seq + k, sz)
+        specs.append(sp)
+        got.append(n)
+    return specs, got
+
+
+def boundary_sizes(cap, total, last, unit=975):
+    """sizes of a batch of `total` bytes whose last message has `last` bytes, the others about `unit`"""
+    rest = total - last
+    n = max(1, rest // unit)
+    sizes = [unit] * n
+    sizes[-1] += rest - unit * n
+    if sizes[-1] > 7000:                   # keep every message below the 8 KB encode buffer
+        extra = sizes[-1] - unit
+        sizes[-1] = unit
+        sizes += [extra // 2, extra - extra // 2]
+    return sizes + [last]
+
+
+def boundary_cases(rng, thorough):
+    """Batches aimed at the capacity of Session::_batchmsgs_buffer (send_process's flush path appends the flushing message
+    to the buffer and hands the buffer to the socket): totals just below / exactly at / just above the reserve with the
+    crossing on the LAST message or on an inner one, a second crossing at twice the capacity, long single messages.
+    ss=1000: the Logon is 1000, the batch starts at 1001 (four-digit numbers throughout, so the sizes are exact)."""
+    cap = batch_capacity()
+    if not cap or cap > 400000:
+        return []
+    cs = []
+    first = 1001
+
+    def start(pm, per="mem"):
+        return "START I %s pm=%s asa=0 hb=30 ss=1000" % (per, pm)
+
+    shapes = [("below", cap - 1, 6176), ("exact", cap, 6176), ("above-last", cap + 1, 6176),
+              ("above-last-small", cap + 300, 975), ("last-alone-crosses", cap + 5000, 7900)]
+    for name, total, last in shapes:
+        sizes = boundary_sizes(cap, total, last)
+        specs, got = sized_batch(0, first, sizes)
+        assert sum(got) == total and max(got) < 8100, (name, sum(got), total, max(got))
+        b = ";".join(specs)
+        # sequential (the session harness' BATCH), one thread of a CONC, and against other senders
+        if thorough or name in ("exact", "above-last"):
+            cs.append(Case("%s|BATCH %s|SEND %s" % (start("thread", rng.choice(["mem", "file"])), b, sized_order("t9.0", first + len(specs), 500)[0]),
+                           "boundary-seq-" + name))
+        if thorough or name == "above-last":
+            pms = ("thread", "pipeline")
+        elif name in ("below", "above-last-small"):
+            pms = (rng.choice(["thread", "pipeline"]),)
+        else:
+            pms = ()
+        for pm in pms:
+            cs.append(Case("%s|CONC B:%s" % (start(pm), b), "boundary-conc-" + name))
+    # the crossing on an inner message (the flushing message then fits: no reallocation while the pointer is held)
+    sizes = boundary_sizes(cap, cap - 3000, 975) + [975] * 8
+    specs, got = sized_batch(0, first, sizes)
+    if thorough:
+        cs.append(Case("%s|BATCH %s" % (start("thread"), ";".join(specs)), "boundary-inner"))
+    cs.append(Case("%s|CONC C:%s" % (start("pipeline"), ";".join(specs)), "boundary-inner"))
+    # first crossing on the last message, then a second batch crossing twice the capacity on its last message
+    s1 = boundary_sizes(cap, cap + 1, 6176)
+    sp1, g1 = sized_batch(0, first, s1)
+    grown = max(2 * cap, sum(g1))
+    s2 = boundary_sizes(cap, grown + 1, 6176)
+    sp2, g2 = sized_batch(0, first + len(sp1), s2, idx0=len(sp1))
+    if thorough:
+        cs.append(Case("%s|BATCH %s|BATCH %s" % (start("thread"), ";".join(sp1), ";".join(sp2)), "boundary-twice"))
+        cs.append(Case("%s|CONC B:%s+B:%s" % (start("pipeline"), ";".join(sp1), ";".join(sp2)), "boundary-twice"))
+    # a near-full batch of one thread while other threads send singles (pm_pipeline: a foreign single may be the one that
+    # flushes the partial batch; pm_thread: the batch is one critical section); not size-exact: the numbers depend on the schedule
+    sizes = boundary_sizes(cap, cap + 1, 6176)
+    specs, got = sized_batch(0, first, sizes)
+    for pm in (("thread", "pipeline") if thorough else ("pipeline",)):
+        singles = "+".join("S:" + sized_order("t1.%d" % i, first, rng.choice([200, 975, 3000, 6176]))[0] for i in range(12))
+        refs = "+".join(("S:" if pm == "pipeline" else "R:") + sized_order("t2.%d" % i, first, rng.choice([200, 975, 7900]))[0] for i in range(12))
+        cs.append(Case("%s|CONC y=%d B:%s %s %s" % (start(pm), rng.randrange(1, 999), ";".join(specs), singles, refs), "boundary-foreign"))
+    # long single messages
+    longs = "+".join(k + ":" + sized_order("t0.%d" % i, first + i, sz)[0] for i, (k, sz) in enumerate([("S", 7900), ("R", 8000), ("P", 6176), ("S", 8100)]))
+    cs.append(Case("%s|CONC %s S:%s" % (start("thread"), longs, sized_order("t1.0", first, 7000)[0]), "long-singles"))
+    return cs
+
+
 def small_cases(rng, pm):
     cs = []
     d = lambda t, i: S.spec("D", [(11, "t%d.%d" % (t, i)), (21, "1"), (55, "IBM"), (54, "1"), (60, S.ts(S.T0)), (40, "1")])
@@ -378,12 +520,13 @@ def malformed_cases(pm):
 def gen_cases(rng, tier):
     thorough = tier == "thorough"
     cs = []
+    cs += boundary_cases(rng, thorough)
     for pm in ("thread", "pipeline", "coro"):
         cs += small_cases(rng, pm)
     for pm in ("thread", "pipeline"):
         cs += malformed_cases(pm)
     # many medium cases: 2-8 threads x 5-60 calls
-    for _ in range(160 if thorough else 30):
+    for _ in range(160 if thorough else 24):
         pm = rng.choice(["thread", "thread", "pipeline", "pipeline", "coro"])
         cs.append(Case(big_case(rng, pm, lo=5, hi=60), "medium-" + pm))
     # the sizes of the plan: 2-8 threads x 50-500 calls
